@@ -17,6 +17,8 @@ package vault
 //vx:redirect (*github.com/openbao/openbao/v2/internal/vault.ExpirationManager).RegisterAuth vxWRegisterAuth
 //vx:redirect github.com/openbao/openbao/sdk/v2/helper/locksutil.LockIndexForKey vxWLockIndex
 //vx:redirect encoding/json.Marshal vxWJSON
+//vx:redirect (encoding/json.Number).Int64 vxWNumInt64
+//vx:redirect (*github.com/openbao/openbao/sdk/v2/framework.FieldData).Get vxWGet
 //vx:noop github.com/hashicorp/go-metrics/compat.*
 //vx:noop (*github.com/openbao/openbao/v2/internal/helper/metricsutil.ClusterMetricSink).*
 //vx:noop github.com/openbao/openbao/v2/internal/helper/metricsutil.*
@@ -24,9 +26,11 @@ package vault
 
 import (
 	"context"
+	"encoding/json"
 	"time"
 
 	log "github.com/hashicorp/go-hclog"
+	"github.com/openbao/openbao/sdk/v2/framework"
 	"github.com/openbao/openbao/sdk/v2/helper/locksutil"
 	"github.com/openbao/openbao/sdk/v2/helper/wrapping"
 	"github.com/openbao/openbao/sdk/v2/logical"
@@ -47,6 +51,7 @@ type vxWrapWorld struct {
 	token      *logical.TokenEntry // the stored wrapping token (nil = gone)
 	payload    map[string]any      // cubbyhole content of that token (nil = gone)
 	cubbyReads int
+	infoReads  int
 	audits     int
 	created    *logical.TokenEntry
 	cubbyPuts  []string
@@ -58,8 +63,20 @@ type vxWrapWorld struct {
 
 var vxWW *vxWrapWorld
 
-func vxWLockIndex(key string) uint8       { return 0 }
-func vxWJSON(v any) ([]byte, error)       { return vxBox(v), nil }
+func vxWGet(d *framework.FieldData, k string) any {
+	if v, ok := d.Raw[k]; ok {
+		return v
+	}
+	return ""
+}
+func vxWNumInt64(n json.Number) (int64, error) {
+	if string(n) == "60000000000" {
+		return 60000000000, nil
+	}
+	return 0, vxErr("strconv.ParseInt: invalid syntax")
+}
+func vxWLockIndex(key string) uint8 { return 0 }
+func vxWJSON(v any) ([]byte, error) { return vxBox(v), nil }
 
 func vxWLookupInternal(ts *TokenStore, ctx context.Context, id string, salted, tainted bool) (*logical.TokenEntry, error) {
 	t := vxWW.token
@@ -99,7 +116,14 @@ func vxWCreate(ts *TokenStore, ctx context.Context, entry *logical.TokenEntry, p
 
 func vxWRoute(r *routing.Router, ctx context.Context, req *logical.Request) (*logical.Response, error) {
 	switch req.Operation {
-	case logical.ReadOperation: // cubbyhole/response read with the wrapping token
+	case logical.ReadOperation: // cubbyhole/response (or cubbyhole/wrapinfo) read with the wrapping token
+		if req.Path == "cubbyhole/wrapinfo" {
+			vxWW.infoReads++
+			if vxWW.payload == nil || vxWW.token == nil || req.ClientToken != vxWW.token.ID {
+				return logical.ErrorResponse("no value found at cubbyhole/wrapinfo"), nil
+			}
+			return &logical.Response{Data: map[string]any{"creation_ttl": json.Number("60000000000"), "creation_path": "secret/x"}}, nil
+		}
 		vxWW.cubbyReads++
 		if vxWW.payload == nil || vxWW.token == nil || req.ClientToken != vxWW.token.ID {
 			return logical.ErrorResponse("no value found at cubbyhole/response"), nil
@@ -176,6 +200,66 @@ func VxUnwrapWhileAnotherInFlight() {
 	vxReach("unwrap: second request while the first is in flight")
 	vxAssert("a second unwrap in flight obtains nothing", err != nil && resp == "")
 	vxAssert("and does not read the cubbyhole", vxWW.cubbyReads == 0)
+	vxAssert("the payload is still there for the request that consumed the use", vxWW.payload != nil)
+}
+
+// rewrap is an unwrap whose payload goes into a new wrapping token: any two operations out of {unwrap, rewrap} on one
+// wrapping token (token passed in the body), each caller having looked the token up before the other used it: exactly
+// one obtains the payload; a rewrap hands on exactly the original payload, creation path and creation TTL; afterwards
+// the old token and its cubbyhole are gone.
+func VxRewrapAndUnwrapShareOneUse() {
+	ctx := namespace.RootContext(context.Background())
+	c := vxWCore()
+	b := &SystemBackend{Core: c}
+	payload := "{\"secret\":\"s3cr3t\"}"
+	vxWW = &vxWrapWorld{
+		token:   &logical.TokenEntry{ID: "wt", NumUses: 1, Policies: []string{"response-wrapping"}, NamespaceID: namespace.RootNamespaceID},
+		payload: map[string]any{"response": payload},
+	}
+	got := 0
+	for i := 0; i < 2; i++ {
+		if vxBool("operation is a rewrap (else an unwrap)") {
+			d := &framework.FieldData{Raw: map[string]any{"token": "wt"}, Schema: map[string]*framework.FieldSchema{"token": {Type: framework.TypeString}}}
+			resp, err := b.handleWrappingRewrap(ctx, &logical.Request{ClientToken: "caller", Operation: logical.UpdateOperation}, d)
+			if err == nil && resp != nil && !resp.IsError() && resp.Data != nil && resp.Data["response"] != nil {
+				got++
+				vxReach("rewrap: payload handed on")
+				vxAssert("a rewrap hands on exactly the original payload", resp.Data["response"] == payload)
+				vxAssert("with the original creation path and creation TTL", resp.WrapInfo != nil && resp.WrapInfo.CreationPath == "secret/x" && resp.WrapInfo.TTL == 60*time.Second)
+			} else {
+				vxAssert("a refused rewrap reveals nothing of the payload", resp == nil || resp.Data == nil || resp.Data["response"] != payload)
+			}
+		} else {
+			holder := &logical.TokenEntry{ID: "wt", NumUses: 1, Policies: []string{"response-wrapping"}}
+			resp, err := b.responseWrappingUnwrap(ctx, holder, true)
+			if err == nil && resp == payload {
+				got++
+			} else {
+				vxAssert("a failed unwrap reveals nothing of the payload", resp != payload)
+			}
+		}
+	}
+	vxReach("rewrap/unwrap: two operations")
+	vxAssert("exactly one of two unwrap / rewrap operations obtains the wrapped response", got == 1)
+	vxAssert("the payload was read from the cubbyhole exactly once", vxWW.cubbyReads == 1)
+	vxAssert("afterwards the old wrapping token and its payload no longer exist", vxWW.token == nil && vxWW.payload == nil)
+}
+
+// a rewrap arriving while another unwrap / rewrap is in flight (use consumed, cubbyhole not yet destroyed)
+func VxRewrapWhileAnotherInFlight() {
+	ctx := namespace.RootContext(context.Background())
+	c := vxWCore()
+	b := &SystemBackend{Core: c}
+	payload := "{\"secret\":\"s3cr3t\"}"
+	vxWW = &vxWrapWorld{
+		token:   &logical.TokenEntry{ID: "wt", NumUses: tokenRevocationPending, Policies: []string{"response-wrapping"}, NamespaceID: namespace.RootNamespaceID},
+		payload: map[string]any{"response": payload},
+	}
+	d := &framework.FieldData{Raw: map[string]any{"token": "wt"}, Schema: map[string]*framework.FieldSchema{"token": {Type: framework.TypeString}}}
+	resp, err := b.handleWrappingRewrap(ctx, &logical.Request{ClientToken: "caller", Operation: logical.UpdateOperation}, d)
+	vxReach("rewrap: second request while the first is in flight")
+	vxAssert("a rewrap in flight behind another use obtains nothing", err != nil || resp == nil || resp.Data == nil || resp.Data["response"] == nil)
+	vxAssert("and does not read the cubbyhole", vxWW.cubbyReads == 0 && vxWW.infoReads == 0)
 	vxAssert("the payload is still there for the request that consumed the use", vxWW.payload != nil)
 }
 
